@@ -70,6 +70,7 @@ func VerifPoolReconcile(variant int) {
 		api.res.Namespaces = append(api.res.Namespaces, corev1.Namespace{ObjectMeta: metav1.ObjectMeta{Name: "unrelated"}})
 	}
 	accepted := outcome == SyncStateSuccess || outcome == SyncStateReprocessAll
+	first := outcome
 	outcome = SyncStateReprocessAll
 	if variant == 2 {
 		// the namespace gets the label: the pool now serves it. The event is the Namespace's (cluster
@@ -89,7 +90,8 @@ func VerifPoolReconcile(variant int) {
 	if accepted {
 		vr.Assert(calls == 1 && reloads <= 1, "an event that leaves the configuration unchanged reached the handler again (reload and full re-sync of all Services)")
 		vr.Reach("unchanged configuration skipped")
-	} else {
+	} else if first == SyncStateError {
+		// (whether a load refused for good - ErrorNoRetry - is offered again on the next event is not demanded)
 		vr.Assert(calls == 2, "a configuration whose load failed was not loaded again on the next event")
 		vr.Reach("failed load retried")
 	}
